@@ -156,6 +156,7 @@ def check(chk):
     # transposing the dimensions of transform data changes nothing: the stacker stacks with the lists recorded at fit
     _c02._stack_transform_dims(_RL(chk, "MIRROR.state.stack", "LAYOUT.stack"))
     _c02._dataset_layout(_RL(chk, "MIRROR.state.stack", "LAYOUT.stack"), "MIRROR.state.stack.dataset_layout")
+    _c02._renamer_by_role(_RL(chk, "MIRROR.state.renamer", "LAYOUT.renamer"), "MIRROR.state.renamer.by_role")
     pm = chk.pm
     concrete = pm.concrete_models() + pm.exported_classes("preprocessing")
     cfg_cache: dict = {}
